@@ -19,11 +19,12 @@ import re
 
 import z3
 
+from pyvc import ext_C01 as IOX
 from pyvc import models as M
 from pyvc.engine import ProgExc, Unsupported
 from pyvc.models import FmtPiece, SymStr
 from pyvc.spec import Registry
-from pyvc.values import NativeMethod, Obj, Opaque, PList, SArr, Sym, fresh_name, to_z3, zint
+from pyvc.values import NativeMethod, Obj, Opaque, PDict, PList, SArr, Sym, fresh_name, to_z3, zint
 
 DEPENDS = ["C18", "C05"]  # read_swc relies on the verified contracts of reset_index_ / mark_roots_as_somas_ / link_roots_to_nearest_ / is_single_root (C18) and sort_nodes_ (C05)
 
@@ -56,6 +57,7 @@ RLINE = z3.Function("row_line", _I, _I, _I)
 CCNT = z3.Function("comments_before", _I, _I, _I)
 CLINE = z3.Function("comment_line", _I, _I, _I)
 UNREADABLE = z3.Function("source_unreadable", _I, _B)
+ABSPATH = z3.Function("abspath", _I, _I)
 
 # reference grammar, written from the SWC format / property statement (NOT read from the source)
 REF_FLOAT = r"([+-]?(?:\d+(?:[.]\d*)?(?:[eE][+-]?\d+)?|[.]\d+(?:[eE][+-]?\d+)?))"
@@ -298,48 +300,174 @@ def ghost_axioms(E, f, n_extra, names):
                       "row_line/comment_line(f, j) = index of the j-th such line")
 
 
-def source_id(reader):
-    """the abstract file behind a FileReader object"""
-    for fld in ("f", "fb", "fname"):
-        v = reader.fields.get(fld)
-        if isinstance(v, (Opaque, Sym)):
-            return v.z
-    raise Unsupported("FileReader without an abstract source")
+# ===========================================================================
+# FileReader.__init__ / __enter__ : which handle is opened / wrapped for which source kind, with which encoding
+def make_source(kind, encoding="utf-8"):
+    """the three source kinds of `PathOrIO` as abstract sources (pyvc/ext_C01.py, io section)"""
+    if kind == "text-stream":
+        return IOX.text_stream("swc_file", encoding)
+    if kind == "byte-stream":
+        return IOX.byte_stream("swc_file")
+    return IOX.path_source("swc_file")
 
 
-def lines_of(S, fr):
-    """assumed contract of FileReader.__enter__: a text handle iterating the lines of the source; reading line k
-    raises UnicodeDecodeError when the bytes do not decode"""
-    f = source_id(fr.vars["self"])
+def register_reader(R):
+    from swcgeom.utils.file import FileReader
 
-    def it(eng, recv):
-        def getter(k):
-            if eng.branch(eng.sbool(DECERR(f, k.z))):
-                raise ProgExc(UnicodeDecodeError, "codec can't decode")
-            return AStr(LINE(f, k.z))
+    KINDS = ("text-stream", "byte-stream", "path")
 
-        eng.assume(NL(f) >= 0)
-        eng.assumptions.add("io-model: iterating the text handle delivers line(f, 0..n_lines(f)-1) in order; delivering line k may instead raise UnicodeDecodeError (decode_error_at(f, k))")
-        return NL(f), getter
+    def init_setup(kind, encoding, **kw):
+        def f(S):
+            IOX.install_io(AStr)
+            src = make_source(kind, "latin-1")  # a text stream brings its own encoding, different from every variant's argument
+            d = dict(self=S.obj(FileReader), fname=src, encoding=encoding, kwargs=PDict(dict(kw)), g_kind=kind, g_kw=dict(kw))
+            if encoding == "detect":
+                d["low_confidence"] = S.real("low_confidence")
+            return d
 
-    h = S.opaque({"__iter_seq__": it}, name="text_handle")
-    h.src = f
-    return h
+        return f
+
+    def init_fields(E, v, o):
+        """the source is kept in exactly one of f / fb / fname, by kind; the other two stay None / None / ''"""
+        fl, src, kind = v["self"].fields, o["fname"], o["g_kind"]
+        want = dict(f=src if kind == "text-stream" else None, fb=src if kind == "byte-stream" else None, fname=src if kind == "path" else "")
+        return all((fl.get(k) is w) if isinstance(w, Opaque) else (k in fl and fl[k] == w and not isinstance(fl[k], Opaque)) for k, w in want.items())
+
+    def init_encoding(E, v, o):
+        """a text stream decodes itself: its own encoding is recorded whatever was asked for (detection skipped); otherwise the
+        encoding asked for, or -- for 'detect' -- what chardet names for the source's bytes, utf-8 when it names none"""
+        enc, src, kind = v["self"].fields.get("encoding"), o["fname"], o["g_kind"]
+        if kind == "text-stream":
+            return enc == "latin-1"
+        if o["encoding"] != "detect":
+            return enc == o["encoding"]
+        det = IOX.events(E, "detect")
+        if len(det) != 1 or not det[0]["data"].z.eq(IOX.BYTES_OF(src.z)):
+            return False  # chardet is asked once, about the bytes of THIS source
+        return (enc is det[0]["encoding"]) if det[0]["encoding"] is not None else enc == "utf-8"
+
+    def init_io(E, v, o):
+        """construction touches the source only to detect the encoding: a byte stream is read once and REWOUND, a path is opened
+        'rb' once, read and closed again; nothing is opened for text reading, wrapped or left open"""
+        ev, src, kind = IOX.events(E), o["fname"], o["g_kind"]
+        ops = [e["op"] for e in ev]
+        if kind == "text-stream" or o["encoding"] != "detect":
+            return ops == []
+        if kind == "byte-stream":
+            return ops == ["read", "seek", "detect"] and ev[0]["handle"] is src and ev[1]["handle"] is src and IOX.position(E, src) == 0
+        h = ev[0]["handle"] if ev else None
+        return (ops == ["open", "read", "close", "detect"] and ev[0]["name"] is src and ev[0]["mode"] == "rb" and ev[0]["kwargs"] == {}
+                and ev[1]["handle"] is h and ev[2]["handle"] is h)
+
+    def init_kwargs(E, v, o):
+        kw = v["self"].fields.get("kwargs")
+        return isinstance(kw, PDict) and kw.items == o["g_kw"]
+
+    def init_may_raise(E, v, o):
+        return z3.And(z3.BoolVal(v["g_kind"] == "path" and v["encoding"] == "detect"), IOX.UNREADABLE(v["fname"].z))
+
+    R.add(
+        f"{FILE}:FileReader.__init__",
+        prop="C02",
+        variants={f"{k},encoding={e}": init_setup(k, e, **({"errors": "strict"} if (k, e) == ("path", "utf-8") else {}))
+                  for k in KINDS for e in ("utf-8", "gbk", "detect")},
+        raises={"OSError": ("only-when-detecting-the-encoding-of-an-unreadable-path", init_may_raise)},
+        ensures=[
+            ("source-kept-in-exactly-one-of-f-fb-fname-by-kind", init_fields),
+            ("encoding:own-for-a-text-stream-else-as-asked-else-detected-or-utf-8", init_encoding),
+            ("source-touched-only-for-detection:byte-stream-read-once-and-rewound,path-opened-rb-once-and-closed", init_io),
+            ("extra-keyword-arguments-stored-for-open", init_kwargs),
+        ],
+        notes="source abstract (pyvc/ext_C01.py io section); 3 source kinds x (utf-8 | another codec | detect); detect_encoding is INLINED (real code), "
+              "chardet.detect / open / BytesIO.read / seek are assumed models",
+    )
+
+    # ---------------------------------------------------------------- __enter__
+    def enter_setup(kind, state="fresh", **kw):
+        def f(S):
+            IOX.install_io(AStr)
+            src = make_source(kind)
+            enc = S.opaque({"__isinstance__": (str,)}, "encoding")  # any encoding name
+            fl = dict(fname=src if kind == "path" else "", fb=src if kind == "byte-stream" else None, f=src if kind == "text-stream" else None,
+                      encoding=enc, kwargs=PDict(dict(kw)))
+            if state == "entered-before":  # a reader whose __enter__ ran already: self.f holds that handle
+                fl["f"] = IOX.text_handle(src.z, "earlier_handle")
+            return dict(self=S.obj(FileReader, **fl), g_kind=kind, g_src=src, g_kw=dict(kw), g_state=state, g_enc=enc, g_f0=fl["f"])
+
+        return f
+
+    def enter_stored(E, v, o):
+        return v["result"] is not None and v["result"] is v["self"].fields.get("f")
+
+    def enter_handle(E, v, o):
+        """text stream: the stream itself; byte stream: ONE TextIOWrapper over self.fb with self.encoding; path: ONE open(self.fname,
+        'r', encoding=self.encoding, **self.kwargs); nothing else is opened, wrapped, read or closed.  (A byte-stream reader wraps
+        again on re-entry, a path reader re-uses the handle it has.)"""
+        ev, kind, src, r = IOX.events(E), o["g_kind"], o["g_src"], v["result"]
+        ops = [e["op"] for e in ev]
+        if kind == "text-stream" or (kind == "path" and o["g_state"] == "entered-before"):
+            return ops == [] and r is o["g_f0"]
+        if kind == "byte-stream":
+            return (ops == ["wrap"] and ev[0]["handle"] is r and ev[0]["buffer"] is src and ev[0]["encoding"] is o["g_enc"] and ev[0]["kwargs"] == {})
+        return (ops == ["open"] and ev[0]["handle"] is r and ev[0]["name"] is src and ev[0]["mode"] == "r" and ev[0]["encoding"] is o["g_enc"]
+                and ev[0]["kwargs"] == o["g_kw"])
+
+    def enter_lines(E, v, o):
+        """the handle returned delivers the lines of the reader's source"""
+        r = v["result"]
+        return isinstance(r, Opaque) and getattr(r, "src", None) is not None and r.src.eq(o["g_src"].z)
+
+    def enter_fields_kept(E, v, o):
+        fl, kind, src = v["self"].fields, o["g_kind"], o["g_src"]
+        return ((fl.get("fname") is src if kind == "path" else fl.get("fname") == "") and (fl.get("fb") is src if kind == "byte-stream" else fl.get("fb") is None)
+                and fl.get("encoding") is o["g_enc"] and isinstance(fl.get("kwargs"), PDict) and fl["kwargs"].items == o["g_kw"])
+
+    def enter_may_raise(E, v, o):
+        return z3.And(z3.BoolVal(v["g_kind"] == "path" and v["g_state"] == "fresh"), IOX.UNREADABLE(v["g_src"].z))
+
+    R.add(
+        f"{FILE}:FileReader.__enter__",
+        prop="C02",
+        variants={
+            "text-stream": enter_setup("text-stream"),
+            "byte-stream": enter_setup("byte-stream"),
+            "byte-stream,entered-before": enter_setup("byte-stream", "entered-before"),
+            "path": enter_setup("path"),
+            "path,extra-open-arguments": enter_setup("path", errors="replace", newline=""),
+            "path,entered-before": enter_setup("path", "entered-before"),
+        },
+        requires=[("byte-stream-at-its-start(a-fresh-stream,or-rewound-by-__init__)", lambda E, v, o: IOX.position(E, v["g_src"]) == 0 if v["g_kind"] == "byte-stream" else True)],
+        raises={"OSError": ("only-for-an-unreadable-path", enter_may_raise)},
+        ensures=[
+            ("returns-the-handle-it-stores-in-self.f", enter_stored),
+            ("handle:the-text-stream-itself|one-TextIOWrapper-over-the-byte-stream|one-open-of-the-path-for-reading,with-the-reader's-encoding-and-nothing-else", enter_handle),
+            ("the-handle-delivers-the-lines-of-the-reader's-source", enter_lines),
+            ("source-encoding-and-open-arguments-not-changed", enter_fields_kept),
+        ],
+        notes="NOT trusted any more: verified against the assumed models of open / io.TextIOWrapper (pyvc/ext_C01.py); inlined at its call site in parse_swc",
+    )
 
 
 def register(R: Registry):
-    def reader(S, with_handle=True):
-        from swcgeom.utils.file import FileReader
+    from swcgeom.utils.file import FileReader
 
-        return S.obj(FileReader, fname="", fb=None, f=file_handle(S) if with_handle else None, encoding="utf-8", kwargs={})
+    IOX.install_io(AStr)
+
+    def reader(S, with_handle=True):
+        # the handle an earlier __enter__ returned: a text handle over some source (close() logged, .closed readable)
+        return S.obj(FileReader, fname="", fb=None, f=IOX.text_handle(z3.Int(fresh_name("some_source")), "fh") if with_handle else None, encoding="utf-8", kwargs={})
 
     def handle_closed(E, v, o):
         f = o["self"].fields["f"]
-        if f is None:
-            return True
         if not (E.cur_key or "").endswith(":FileReader.__exit__"):
             return CLOSED(f.z) if isinstance(f, Opaque) else True  # at a call site: an (unused) fact about a ghost predicate
-        return any(z.eq(f.z) for z in E.ghost.get("closed", []))
+        return f is None or any(z.eq(f.z) for z in E.ghost.get("closed", []))
+
+    def nothing_else_closed(E, v, o):
+        f, closed = o["self"].fields["f"], E.ghost.get("closed", [])
+        if not (E.cur_key or "").endswith(":FileReader.__exit__"):
+            return True
+        return (not closed) if f is None else (len(closed) == 1 and closed[0].eq(f.z))
 
     R.add(
         f"{FILE}:FileReader.__exit__",
@@ -355,12 +483,11 @@ def register(R: Registry):
             # Python's `with` rule: a true result swallows the exception raised in the body.
             "does-not-suppress :: implies(not is_none(exc_type), not result)",
             ("closes-the-handle", handle_closed),
+            ("closes-it-once-and-closes-nothing-else(a-reader-that-was-never-entered-closes-nothing)", nothing_else_closed),
         ],
     )
 
-    R.add(f"{FILE}:FileReader.__enter__", prop="C02", trusted=True, returns=lines_of, ensures=[],
-          notes="ASSUMED: the handle iterates the abstract line sequence of the reader's source (open / TextIOWrapper not modelled)")
-
+    register_reader(R)
     register_parse(R)
 
 
@@ -375,25 +502,17 @@ def register_parse(R):
 
     names = get_names()
 
-    def source(S, kind):
-        from io import BytesIO, TextIOBase
-
-        proto = {}
-        if kind == "text-stream":
-            proto = {"__isinstance__": (TextIOBase,), ".encoding": lambda eng, v: "utf-8"}
-        elif kind == "byte-stream":
-            proto = {"__isinstance__": (BytesIO,)}
-        return S.opaque(proto, "swc_file")
-
-    def parse_setup(extra, kind):
+    def parse_setup(extra, kind, encoding="utf-8"):
         def f(S):
             import swcgeom.core.swc_utils.io as io_mod
+
+            IOX.install_io(AStr)
 
             for g in list(vars(io_mod).values()):  # module-level compiled patterns (RE_COMMENT)
                 if isinstance(g, re.Pattern):
                     _register_pattern(g)
-            src = source(S, kind)
-            return dict(fname=src, names=names, extra_cols=PList(list(extra)) if extra else None, encoding="utf-8", g_extra=list(extra or []))
+            src = make_source(kind)
+            return dict(fname=src, names=names, extra_cols=PList(list(extra)) if extra else None, encoding=encoding, g_extra=list(extra or []), g_kind=kind)
 
         return f
 
@@ -478,6 +597,25 @@ def register_parse(R):
         j = z3.Int(fresh_name("j"))
         return z3.Exists([j], z3.And(j >= 0, j < NL(f), z3.Not(line_ok(ne, f, j))))
 
+    def post_io(E, v, o):
+        """the source is opened for text reading exactly once, the way its kind demands, with the requested encoding (for 'detect':
+        what chardet named, else utf-8), and the handle the reader opened is closed again when parse_swc returns"""
+        if "g_kind" not in v:
+            return True  # at a call site nothing is known about the source kind
+        kind, src = v["g_kind"], v["fname"]
+        ev = [e for e in IOX.events(E) if e["op"] in ("open", "wrap") and e.get("mode", "r") != "rb"]
+        if kind == "text-stream":
+            return ev == []
+        if len(ev) != 1 or ev[0]["op"] != ("wrap" if kind == "byte-stream" else "open") or ev[0].get("buffer", ev[0].get("name")) is not src or ev[0]["kwargs"] != {}:
+            return False
+        enc = ev[0]["encoding"]
+        if o["encoding"] != "detect":
+            ok = enc == o["encoding"]
+        else:
+            det = IOX.events(E, "detect")
+            ok = len(det) == 1 and ((enc is det[0]["encoding"]) if det[0]["encoding"] is not None else enc == "utf-8")
+        return z3.And(z3.BoolVal(bool(ok)), CLOSED(ev[0]["handle"].z))
+
     def parse_result(S, fr):
         extra = fr.vars.get("extra_cols")
         extra = list(extra.items) if isinstance(extra, PList) and extra.items else []
@@ -506,15 +644,19 @@ def register_parse(R):
             "path+one-extra-column": parse_setup(["e"], "path"),
             "byte-stream": parse_setup(None, "byte-stream"),
             "text-stream": parse_setup(None, "text-stream"),
+            "byte-stream,encoding=detect": parse_setup(None, "byte-stream", "detect"),
+            "path,encoding=detect": parse_setup(None, "path", "detect"),
         },
         lemmas=[axioms],
         returns=parse_result,
-        raises={"ValueError": ("only-when-some-line-is-bad-or-undecodable", wrap(may_raise))},
+        raises={"ValueError": ("only-when-some-line-is-bad-or-undecodable", wrap(may_raise)),
+                "OSError": ("only-when-the-source-is-unreadable(open-fails)", lambda E, v, o: IOX.UNREADABLE(v["fname"].z))},
         ensures=[
             ("one-table-entry-per-row-line", wrap(post_count)),
             ("every-field-is-the-conversion-of-its-group-in-file-order", wrap(post_fields)),
             ("comments-are-the-comment-lines-minus-the-column-header-in-order", wrap(post_comments)),
             ("every-line-was-read-and-is-a-row-a-comment-or-blank", wrap(post_consumed)),
+            ("source-opened-once-for-its-kind-with-the-requested-encoding-and-closed-on-return", post_io),
         ],
         loops={0: dict(
             invariant=[("columns-equally-filled-one-entry-per-row-line-so-far", inv_equal),
@@ -811,46 +953,237 @@ def register_read(R):
     # the same function is registered under an alias that resolves to the same source (extract skips "<locals>").
     FROM_SWC = f"{TREE}:Tree.<locals>.from_swc"
 
-    def builder(S):
-        """stand-in for `cls`: a class whose from_data_frame is abstract (Tree.__init__/padding are C03/C09 matter)"""
-        def from_data_frame(eng, recv, args, kwargs):
-            eng.assumptions.add("assumed(local to Tree.from_swc): cls.from_data_frame is abstract; its call is logged")
-            eng.ghost.setdefault("built", []).append(dict(args=list(args), kwargs=dict(kwargs)))
-            return Opaque(z3.Const(fresh_name("tree"), _I), {})
+    def abspath_model(eng, args, kwargs):
+        """os.path.abspath of an abstract path: an abstract string determined by the path (nothing else is assumed)"""
+        (pth,) = args
+        if isinstance(pth, Opaque):
+            eng.assumptions.add("os-model: os.path.abspath(path) of an abstract path is an abstract string abspath(path)")
+            return AStr(ABSPATH(pth.z))
+        import os
 
-        return S.opaque({"from_data_frame": from_data_frame}, "cls")
+        return os.path.abspath(pth)
 
-    def from_setup(S):
-        return dict(cls=builder(S), swc_file=S.opaque({}, "swc_file"))
+    def from_setup(kind, **options):
+        def f(S):
+            import os
+
+            from pyvc import ext_C01
+            from swcgeom.core.tree import Tree
+
+            ext_C01.install()
+            M.EXTRA_MODELS[os.path.abspath] = abspath_model
+            src = S.opaque({"__isinstance__": (str,)} if kind == "path" else {}, "swc_file")
+            return dict(cls=Tree, swc_file=src, g_kind=kind, kwargs=PDict(dict(options)))
+
+        return f
 
     def bad_source(v):
         f = v["swc_file"].z
         j = z3.Int(fresh_name("j"))
         return z3.Or(z3.Exists([j], z3.And(j >= 0, j < NL(f), z3.Not(line_ok(0, f, j)))), UNREADABLE(f))
 
-    def from_built(E, v, o):
-        rd, built = E.ghost.get("read", []), E.ghost.get("built", [])
-        cs = calls(E, "read_swc")
-        if len(rd) != 1 or len(built) != 1 or len(cs) != 1 or cs[0]["swc_file"] is not o["swc_file"]:
+    def the_read(E, o):
+        rd, cs = E.ghost.get("read", []), calls(E, "read_swc")
+        if len(rd) != 1 or len(cs) != 1 or cs[0]["swc_file"] is not o["swc_file"]:
+            return None
+        return rd[0]
+
+    READ_DEFAULTS = dict(extra_cols=None, fix_roots=False, sort_nodes=False, reset_index=True, encoding="utf-8", names=None)
+
+    def from_read_once(E, v, o):
+        """one read_swc call, on the source given, with exactly the caller's options (everything else at read_swc's defaults)"""
+        if the_read(E, o) is None:
             return False
-        b = built[0]
-        return (len(b["args"]) == 1 and b["args"][0] is rd[0]["df"] and b["kwargs"].get("comments") is rd[0]["comments"]
-                and b["kwargs"].get("source") == "" and set(b["kwargs"]) == {"source", "comments"})
+        a, want = calls(E, "read_swc")[0], dict(READ_DEFAULTS)
+        want.update(o["kwargs"].items)
+        return all(a[k] == w if not isinstance(w, PList) else a[k] is w for k, w in want.items())
+
+    def tree_cols(v):
+        from swcgeom.core.tree import Tree
+
+        t = v["result"]
+        if not isinstance(t, Obj) or t.cls is not Tree:
+            return None
+        nd = t.fields.get("ndata")
+        return nd.items if nd is not None and getattr(nd, "items", None) is not None else None
+
+    def from_columns(E, v, o):
+        """every column of the tree is the corresponding column of the table read_swc returned: same length (= number of
+        rows of the table), same value at every row, in row order"""
+        rd, nd = the_read(E, o), tree_cols(v)
+        if rd is None or nd is None or list(nd) != NCOLS:
+            return False
+        df, out = rd["df"], []
+        for c in NCOLS:
+            a, g = nd[c], df.cols[c]
+            if not isinstance(a, SArr) or a.kind != g.kind:
+                return False
+            j = z3.Int(fresh_name("j"))
+            out.append(z3.And(a.nz() == zint(df.n), z3.ForAll([j], z3.Implies(z3.And(j >= 0, j < zint(df.n)), z3.Select(a.arr, j) == z3.Select(g.arr, j)))))
+        return z3.And(*out)
+
+    def from_dtypes(E, v, o):
+        import numpy as np
+
+        nd = tree_cols(v)
+        return nd is not None and all(isinstance(nd[c], SArr) and nd[c].dtype == np.dtype("int32" if j in (0, 1, 6) else "float32") for j, c in enumerate(NCOLS))
+
+    def from_comments(E, v, o):
+        rd = the_read(E, o)
+        if rd is None or tree_cols(v) is None:
+            return False
+        cm, c0 = v["result"].fields.get("comments"), rd["comments"]
+        if not isinstance(cm, PList) or cm.items is not None or cm is c0:
+            return False
+        return z3.And(zint(cm.n) == zint(c0.n), cm.cols[0] == c0.cols[0])
+
+    def from_source(E, v, o):
+        if tree_cols(v) is None:
+            return False
+        src = v["result"].fields.get("source")
+        if o["g_kind"] == "path":
+            return isinstance(src, AStr) and src.z.eq(ABSPATH(o["swc_file"].z))
+        return src == ""
 
     R.add(
         FROM_SWC,
         prop="C02",
-        setup=from_setup,
+        variants={"stream-source": from_setup("stream"), "path-source": from_setup("path"),
+                  "stream-source,sort_nodes=True": from_setup("stream", sort_nodes=True),
+                  "path-source,reset_index=False,fix_roots=somas": from_setup("path", reset_index=False, fix_roots="somas")},
         requires=[("file-has-a-root-row", pre_root), ("row-ids-are-unsigned(regex fact: the id group is [0-9]+)", pre_ids),
                   ("every-parent-id-names-a-row(file)", lambda E, v, o: K18.forest_pre(E, file_table(E, v["swc_file"].z), "every-parent-id-names-a-row"))],
         raises={"ValueError": ("only-when-the-source-is-bad-or-unreadable", lambda E, v, o: bad_source(v))},
         ensures=[
             ("a-tree-is-returned-only-for-a-clean-readable-source(no-error-swallowed)", lambda E, v, o: z3.Not(bad_source(v))),
-            ("tree-is-built-from-exactly-the-table-and-comments-read", from_built),
+            ("read_swc-is-called-exactly-once-on-the-source-given-with-the-caller's-options", from_read_once),
+            ("every-column-of-the-tree-equals-the-corresponding-column-of-the-table-read(n-nodes=#rows,row-order)", from_columns),
+            ("int-columns-stored-as-int32-float-columns-as-float32", from_dtypes),
+            ("comments-are-the-comments-read-in-order-in-a-list-of-the-tree's-own", from_comments),
+            ("source-is-the-absolute-path-for-a-path-source-else-empty", from_source),
+            # the two labels of the earlier (weaker) contract, kept so that obligation names stay stable
+            ("tree-is-built-from-exactly-the-table-and-comments-read", lambda E, v, o: z3.And(to_z3(E.truth(from_columns(E, v, o)), "bool"), to_z3(E.truth(from_comments(E, v, o)), "bool"))),
             ("something-is-returned", lambda E, v, o: v["result"] is not None),
         ],
         notes="any exception class read_swc may raise (ValueError for a bad file, OSError for an unreadable one) must leave as ValueError; "
-              "a parent id that names no row is outside the domain (the real code leaves with ValueError wrapping the KeyError of the connectivity check)",
+              "a parent id that names no row is outside the domain (the real code leaves with ValueError wrapping the KeyError of the connectivity check)"
+              "; Tree.from_data_frame / Tree.__init__ / padding1d / DictSWC.__init__ are INLINED (real code), read_swc enters through its contract",
+    )
+
+
+# ===========================================================================
+# read_swc: plumbing of `extra_cols` / `names` / `encoding` into parse_swc.  The dispatch contract above (all fix_roots x sort_nodes x
+# reset_index combinations) fixes extra_cols=None, names=None, encoding='utf-8'; this second contract of the SAME function (registered
+# under an alias key that resolves to the same source, like Tree.from_swc) varies exactly those three and keeps the dispatch options
+# at their defaults / reset_index off.
+def register_read_plumbing(R):
+    from pyvc.values import Callback, fresh
+    from swcgeom.core.swc_utils import get_names
+
+    names = get_names()
+    NCOLS = names.cols()
+
+    def single_root_stub(eng, args, kwargs):
+        eng.assumptions.add("assumed-contract(local to read_swc): is_single_root is pure")
+        eng.call_log.append(("is_single_root", dict(df=args[0], kwargs=dict(kwargs))))
+        return fresh("bool", "is_single_root")
+
+    def setup(extra, names_given, encoding, reset_index):
+        def f(S):
+            IOX.install_io(AStr)
+            ex = PList(list(extra)) if extra is not None else None
+            if ex is not None:
+                ex.frozen = True
+            return dict(swc_file=S.opaque({}, "swc_file"), extra_cols=ex, fix_roots=False, sort_nodes=False, reset_index=reset_index,
+                        encoding=encoding, names=(names if names_given else None), g_extra=list(extra or []))
+
+        return f
+
+    def ne(v):
+        return len(v["g_extra"])
+
+    def axioms(E, fr):
+        ghost_axioms(E, fr.vars["swc_file"].z, len(fr.vars["g_extra"]), names)
+
+    def rows(f):
+        return RCNT(f, NL(f))
+
+    def pre_root(E, v, o):
+        f, j = v["swc_file"].z, z3.Int(fresh_name("j"))
+        return z3.Exists([j], z3.And(j >= 0, j < rows(f), field(ne(v), LINE(f, RLINE(f, j)), 6) == -1))
+
+    def calls(E, name):
+        return [a for nm, a in E.call_log if nm == name]
+
+    def parsed(E):
+        ps = E.ghost.get("parsed", [])
+        return ps[0] if len(ps) == 1 else None
+
+    def post_plumbing(E, v, o):
+        cs = calls(E, "parse_swc")
+        if len(cs) != 1 or parsed(E) is None:
+            return False
+        a = cs[0]
+        return (a["fname"] is o["swc_file"] and a["extra_cols"] is v["extra_cols"] and a["encoding"] == o["encoding"] and a["names"] == names
+                and a["names"] is (o["names"] if o["names"] is not None else a["names"]))
+
+    def post_table(E, v, o):
+        p = parsed(E)
+        if p is None:
+            return False
+        df, cm = v["result"]
+        if df is not p["df"] or cm is not p["comments"] or list(df.cols) != NCOLS + v["g_extra"]:
+            return False
+        c0 = p["comments0"]
+        return z3.And(zint(cm.n) == zint(c0.n), cm.cols[0] == c0.cols[0])
+
+    def post_values(E, v, o):
+        """one entry per row line; every column - the requested extra ones included - holds what the rows say (ids / parents re-based
+        when reset_index is on: that arithmetic is C18's contract of reset_index_)"""
+        p = parsed(E)
+        if p is None:
+            return False
+        df, _ = v["result"]
+        f, allc = o["swc_file"].z, NCOLS + v["g_extra"]
+        keep = [c for c in allc if not (o["reset_index"] and c in (names.id, names.pid))]
+        if any(c not in df.cols for c in allc):
+            return False
+        out = [zint(df.n) == rows(f)]
+        for c in keep:
+            j = z3.Int(fresh_name("j"))
+            out.append(z3.ForAll([j], z3.Implies(z3.And(j >= 0, j < zint(df.n)), z3.Select(df.cols[c].arr, j) == field(ne(v), LINE(f, RLINE(f, j)), allc.index(c)))))
+        return z3.And(*out)
+
+    def post_names_to_checker(E, v, o):
+        cs = calls(E, "is_single_root")
+        return len(cs) == 1 and cs[0]["kwargs"].get("names") == names and set(cs[0]["kwargs"]) == {"names"}
+
+    def may_raise(E, v, o):
+        f, j = v["swc_file"].z, z3.Int(fresh_name("j"))
+        return z3.Exists([j], z3.And(j >= 0, j < NL(f), z3.Not(line_ok(ne(v), f, j))))
+
+    R.add(
+        f"{IO}:<locals>.read_swc",
+        prop="C02",
+        variants={
+            "one-extra-column,names-omitted,encoding=gbk,reset_index": setup(["e"], False, "gbk", True),
+            "two-extra-columns,names-given,encoding=detect,no-reset": setup(["e", "g"], True, "detect", False),
+            "no-extra-column,names-given,encoding=utf-8,reset_index": setup(None, True, "utf-8", True),
+            "empty-extra-list,names-omitted,encoding=latin-1,no-reset": setup([], False, "latin-1", False),
+        },
+        lemmas=[axioms],
+        options=dict(globals_override={"is_single_root": Callback("is_single_root", single_root_stub)}),
+        requires=[("file-has-a-root-row", pre_root)],
+        raises={"ValueError": ("only-for-a-bad-file", may_raise),
+                "OSError": ("unreadable-source", lambda E, v, o: UNREADABLE(v["swc_file"].z))},
+        ensures=[
+            ("parse_swc-called-once-with-the-caller's-source-extra-columns-encoding-and-names(default-names-when-omitted)", post_plumbing),
+            ("returns-the-parsed-table-with-the-seven-columns-then-the-extra-columns-and-the-untouched-comment-list", post_table),
+            ("one-entry-per-row-and-every-column-extra-ones-included-holds-what-the-rows-say", post_values),
+            ("the-same-names-go-to-the-single-root-check", post_names_to_checker),
+        ],
+        notes="second contract of read_swc (alias key): extra_cols / names / encoding vary, dispatch options at defaults; is_single_root is a local "
+              "assumed stand-in (pure, only feeds a warning), parse_swc and reset_index_ enter through their verified contracts",
     )
 
 
@@ -860,3 +1193,4 @@ _register_0 = register
 def register(R):  # noqa: F811
     _register_0(R)
     register_read(R)
+    register_read_plumbing(R)
